@@ -175,8 +175,24 @@ impl Monitor for C07 {
                 13 | 14 => {
                     // raw bit-string of any length
                     let n = if rng.chance(1, 6) { 0 } else { 1 + rng.below(70) };
+                    let n = if rng.chance(1, 3) { n / 8 * 8 } else { n };
                     let bits: Vec<u8> = (0..n).map(|_| (rng.next_u64() & 1) as u8).collect();
-                    let _ = xs.defvar(Xstr::from(name.as_str()), Cell::Bitstr(crate::mon::c12::bits_to_bitstr(&bits)));
+                    // half of the raw fields are views into a longer buffer that start at some other bit position
+                    // (what reading a chunk from an input gives), the others are values of their own
+                    let value = if rng.flip() {
+                        let lead = 1 + rng.below(19);
+                        let trail = rng.below(11);
+                        let mut all: Vec<u8> = (0..lead).map(|_| (rng.next_u64() & 1) as u8).collect();
+                        all.extend_from_slice(&bits);
+                        all.extend((0..trail).map(|_| (rng.next_u64() & 1) as u8));
+                        let mut whole = crate::mon::c12::bits_to_bitstr(&all);
+                        let _ = whole.read(lead);
+                        obs.count("raw_fields_that_are_views");
+                        whole.read(n).unwrap_or_else(Xbitstr::new)
+                    } else {
+                        crate::mon::c12::bits_to_bitstr(&bits)
+                    };
+                    let _ = xs.defvar(Xstr::from(name.as_str()), Cell::Bitstr(value));
                     Field {
                         pre,
                         pack: name.clone(),
